@@ -14,8 +14,8 @@ from .core import Violation, hyp_run, loop_run, Res
 
 PROPERTY = 'C17'
 RULE = ('operation sequences over xtuml.OrderedSet and xtuml.QuerySet: exhaustive product of a '
-        '44-call alphabet (add/discard/remove x, pop last/first, clear, iterate-discarding-current forwards and in reverse, '
-        '|= &= -= ^= with operands [], [0], (1,2), OrderedSet[2,1,0] and self, s = s|&-^ operand) '
+        '48-call alphabet (add/discard/remove x, pop last/first, clear, iterate-discarding-current forwards and in reverse, '
+        '|= &= -= ^= with operands [], [0], (1,2), OrderedSet[2,1,0], the repeating list [2,0,2] and self, s = s|&-^ operand) '
         'on universe {0,1,2} up to the stated length, plus Hypothesis sequences up to length 60 '
         'over 8 elements; full comparison with the list/set model after the last call of every '
         'sequence (every prefix is itself an enumerated sequence) and of every return value on '
@@ -124,7 +124,7 @@ def apply(cls, real, model, op, case):
     elif name in ('ior', 'iand', 'isub', 'ixor'):
         isself = op[1][0] == 'self'
         o = operand(cls, op[1], real)
-        vals = list(before) if isself else list(op[1][1])
+        vals = list(before) if isself else list(dict.fromkeys(op[1][1]))   # an operand listing an element twice denotes the same set
         ident = real
         if name == 'ior':
             real |= o
@@ -291,7 +291,7 @@ def alphabet(universe, reduced=False):
         ops.append(('remove', x))
     ops += [('pop', True, True), ('pop', False, True), ('clear',),
             ('iterdiscard', 'all'), ('iterdiscard', 'even'), ('iterdiscard', 'all', 'rev'), ('iterdiscard', 'even', 'rev')]
-    operands = [('list', ()), ('list', (0,)), ('tuple', (1, 2)), ('oset', (2, 1, 0)), ('self', ())]
+    operands = [('list', ()), ('list', (0,)), ('tuple', (1, 2)), ('oset', (2, 1, 0)), ('self', ()), ('list', (2, 0, 2))]
     if reduced:
         operands = [('list', (0,)), ('oset', (2, 1, 0)), ('self', ())]
     for n in ('ior', 'iand', 'isub', 'ixor'):
@@ -306,7 +306,7 @@ def alphabet(universe, reduced=False):
 
 def op_strategy(universe):
     u = st.sampled_from(universe)
-    vals = st.lists(u, unique=True, max_size=6).map(tuple)
+    vals = st.one_of(st.lists(u, unique=True, max_size=6), st.lists(u, max_size=6)).map(tuple)
     operand_s = st.one_of(
         st.tuples(st.sampled_from(['list', 'tuple', 'oset', 'same']), vals),
         st.just(('self', ())))
